@@ -519,7 +519,7 @@ func dataFieldDescent(c *core.Ctx, t *tmpl.Template, name string, from *ssa.Func
 }
 
 func checkC08(c *core.Ctx, l *core.Ledger) {
-	l.Explanation = "Static clauses of C08: (REC) every recursive cycle of the call graph (VTA + template-function edges + callback gating) inside compile, gen, ast, idl (hand-written part), plugin and the command carries a termination certificate that is re-derived on each run: functions guarded by linked() or by a memo stored before recursing are removed; every remaining recursive edge must pass a proper sub-term of the caller's data parameter (syntax trees are finite) or a strictly shorter name (splitInclude); an edge that follows a definition reference (pointer to a Constant/ServiceSpec/TypedefSpec..., a default taken from a struct type, a root type) needs an acyclicity certificate for that definition kind: in-progress detection in the definition's Link that turns a cycle into an error, or the typedef cycle pass; (LOOPS) every non-range loop has a certificate (worklist with visited set, fresh-name search with a strictly increasing counter, counted); (TYPEDEF-CYCLE-PASS) link() cannot succeed without findTypeCycles having run for every typedef; (CYCLE-VISIT) the walk behind that pass is complete: typeCycleFinder.Visit stops descending only at a node already on its chain or at a struct, descends with the chain extended by the node, and every TypeSpec kind's ForEachTypeReference hands every component type to the callback; (INCLUDE-ONCE) include cycle cut; (PANICS) every explicit panic reachable from compile.Compile / gen.Generate is in a verified class (exhaustive dispatch, pre-link placeholder method made unreachable by FIELD-RELINK, argument validation decided at all call sites, one named exception). NOT decided: termination of the generated scanner/parser (ragel/goyacc tables), implicit panics (nil map / nil dereference), stack depth of legitimately deep inputs."
+	l.Explanation = "Static clauses of C08: (REC) every recursive cycle of the call graph (VTA + template-function edges + callback gating) inside compile, gen, ast, idl (hand-written part), plugin and the command carries a termination certificate that is re-derived on each run: functions guarded by linked() or by a memo stored before recursing are removed; every remaining recursive edge must pass a proper sub-term of the caller's data parameter (syntax trees are finite) or a strictly shorter name (splitInclude); an edge that follows a definition reference (pointer to a Constant/ServiceSpec/TypedefSpec..., a default taken from a struct type, a root type) needs an acyclicity certificate for that definition kind: in-progress detection in the definition's Link that turns a cycle into an error, or the typedef cycle pass; (LOOPS) every non-range loop has a certificate (worklist with visited set, fresh-name search with a strictly increasing counter, counted); (TYPEDEF-CYCLE-PASS) link() cannot succeed without findTypeCycles having run for every typedef; (CYCLE-VISIT) the walk behind that pass is complete: typeCycleFinder.Visit stops descending only at a node already on its chain or at a struct, descends with the chain extended by the node, and every TypeSpec kind's ForEachTypeReference hands every component type to the callback; (INCLUDE-ONCE) include cycle cut; (PANICS) every explicit panic reachable from compile.Compile / gen.Generate is in a verified class (exhaustive dispatch, pre-link placeholder method made unreachable by FIELD-RELINK, argument validation decided at all call sites, one named exception). (NIL-ROOT) results of RootTypeSpec inside compile — nil for a typedef in a cycle until the cycle pass runs — are only compared, switched on or asserted with the ok form. NOT decided: termination of the generated scanner/parser (ragel/goyacc tables), implicit panics (nil map / nil dereference), stack depth of legitimately deep inputs."
 	l.RuleText = "one obligation per recursive SCC, per loop, per panic"
 	l.Assumptions = []string{"syntax trees and type expressions built by the parser are finite and acyclic", "identifiers produced by the scanner are non-empty (goCase(\"\") panics otherwise)", "VTA over-approximates dynamic dispatch; reflection edges are limited to the two kinds added by hand"}
 	g := c.Graph()
@@ -690,6 +690,7 @@ func checkC08(c *core.Ctx, l *core.Ledger) {
 		l.Bad("TYPEDEF-CYCLE-PASS", "compiler.link", "", "link() can return nil without findTypeCycles having been applied to every typedef of the module: "+why)
 	}
 	checkCycleVisit(c, l)
+	checkNilRoot(c, l, "NIL-ROOT")
 	checkExplicitPanics(c, l)
 	if os.Getenv("VDEBUG") != "" {
 		fmt.Println("certs:", certs)
